@@ -200,7 +200,7 @@ class CoAPParser(HeaderParser):
 
         header_descriptor:HeaderDescriptor = HeaderDescriptor(
             id= COAP_HEADER_ID,
-            length= 4*8 + token_length_int*8 +  option_bits_consumed,
+            length= 4*8 + token.length +  option_bits_consumed,
             fields= header_fields + options_fields
         )
         return header_descriptor
@@ -345,6 +345,8 @@ def _parse_options(buffer: Buffer, mode:CoAPOptionMode) -> Tuple[List[FieldDescr
 
         option_offset += option_value_length
         cursor += option_offset
+        if cursor > buffer.length:
+            raise ParserError(buffer=buffer, message=f'option truncated: {cursor} > {buffer.length}')
 
         if mode is CoAPOptionMode.SYNTACTIC:
             option_field_positions[CoAPFields.OPTION_DELTA] += 1
